@@ -309,3 +309,51 @@ package rpc
 //@   ensures result2 == nil ==> ghost(errMade, 0) == old(ghost(errMade, 0))
 //@ func (Message).Unwrap
 //@   trusted
+
+//@ package github.com/basecomplextech/spec/internal/writer
+// the writer interface as rpc sees it (the implementation's contracts are verified under C12)
+//@ iface Writer.Reset
+//@   modifies writer.*
+//@   modifies buffer.*
+//@   modifies uint8
+//@   modifies pools.*
+//@ iface Writer.Message
+//@   modifies writer.*
+//@   modifies buffer.*
+//@   modifies uint8
+//@   modifies format.*
+
+//@ package github.com/basecomplextech/spec/proto/prpc
+//@ func NewRequestWriterTo
+//@   trusted
+//@ func (RequestWriter).Calls
+//@   trusted
+
+//@ package github.com/basecomplextech/spec/rpc
+// request state (C18): the pooled request builder starts every use with an empty buffer, freshly
+// begun writers and the done flag cleared
+//@ func (*requestState).reset
+//@   safety[C18]
+//@   requires s != nil && s.buf != nil && s.writer != nil
+//@   modifies rpc.requestState.*
+//@   modifies writer.*
+//@   modifies buffer.*
+//@   modifies uint8
+//@   modifies pools.*
+//@   modifies format.*
+//@   modifies prpc.*
+//@   modifies spec.*
+//@   ensures[C18] !s.done && s.buf == old(s.buf) && s.writer == old(s.writer)
+
+//@ func releaseRequestState
+//@   safety[C18]
+//@   requires s != nil && s.buf != nil && s.writer != nil
+//@   modifies rpc.requestState.*
+//@   modifies writer.*
+//@   modifies buffer.*
+//@   modifies uint8
+//@   modifies pools.*
+//@   modifies format.*
+//@   modifies prpc.*
+//@   modifies spec.*
+//@   ensures[C18] !s.done
